@@ -58,8 +58,8 @@ def make_job(rng, kind):
     fr = linkgen.gen_movie(rng, quarter=q, nframes=rng.randint(2, 6))
     ndim = fr[0].shape[1]
     sr = linkgen.gen_range(rng, ndim, quarter=q, aniso=False)
-    return dict(kind=kind, frames=fr, sr=sr, memory=rng.choice([0, 1, 2, 3]), ndim=ndim, max_size=linkgen.LIMIT,
-                strategy=rng.choice(['recursive', 'nonrecursive', 'numba']))
+    return c02.safe_strategy(dict(kind=kind, frames=fr, sr=sr, memory=rng.choice([0, 1, 2, 3]), ndim=ndim, max_size=linkgen.LIMIT,
+                                  strategy=rng.choice(['recursive', 'nonrecursive', 'numba'])))
 
 
 def start(job):
